@@ -46,6 +46,41 @@ Theorem C14_model_same_id_is_translated_source : forall f g,
 Proof. exact model_same_id_is_translated. Qed.
 Print Assumptions C14_model_same_id_is_translated_source.
 
+(* the one-level cases of typeIdentical as they stand in the source: arrays are identical iff their element types are and
+   their lengths are equal -- only a NEGATIVE length (the type checker's "unknown") is let through; 0 is a length like any other *)
+Theorem C14_array_case_of_the_source : forall y_is_array x_len y_len elem,
+  gen_array_identical y_is_array x_len y_len elem =
+  y_is_array && ((x_len <? 0)%Z || (y_len <? 0)%Z || Z.eqb x_len y_len) && elem.
+Proof. exact array_identical_spec. Qed.
+Print Assumptions C14_array_case_of_the_source.
+
+Theorem C14_known_array_lengths_must_be_equal : forall n m elem, (0 <= n)%Z -> (0 <= m)%Z ->
+  gen_array_identical true n m elem = Z.eqb n m && elem.
+Proof. exact known_lengths_must_be_equal. Qed.
+Print Assumptions C14_known_array_lengths_must_be_equal.
+
+Theorem C14_one_level_cases_of_the_source :
+  (forall b k l, gen_basic_identical b k l = b && Z.eqb k l) /\
+  (forall b e, gen_slice_identical b e = b && e) /\ (forall b e, gen_pointer_identical b e = b && e) /\
+  (forall b k e, gen_map_identical b k e = b && k && e) /\
+  (forall b d f e, gen_chan_identical b d f e = b && Z.eqb d f && e) /\
+  (forall b v w p r, gen_signature_identical b v w p r = b && Bool.eqb v w && p && r).
+Proof. exact one_level_cases_spec. Qed.
+Print Assumptions C14_one_level_cases_of_the_source.
+
+(* the model identical_x has exactly these decisions in its Basic / Array / Slice / Pointer / Map / Chan / Signature cases *)
+Theorem C14_model_one_level_cases_are_translated_source : forall a b c d,
+  (forall k l, identical_x (T (HBasic k) []) (T (HBasic l) []) = gen_basic_identical true (Z.of_N k) (Z.of_N l)) /\
+  (forall n m, identical_x (T (HArray n) [a]) (T (HArray m) [b]) = gen_array_identical true n m (identical_x a b)) /\
+  identical_x (T HSlice [a]) (T HSlice [b]) = gen_slice_identical true (identical_x a b) /\
+  identical_x (T HPointer [a]) (T HPointer [b]) = gen_pointer_identical true (identical_x a b) /\
+  identical_x (T HMap [a; c]) (T HMap [b; d]) = gen_map_identical true (identical_x a b) (identical_x c d) /\
+  (forall e f, identical_x (T (HChan e) [a]) (T (HChan f) [b]) = gen_chan_identical true (Z.of_N e) (Z.of_N f) (identical_x a b)) /\
+  (forall v w, identical_x (T (HSig v) [a; c]) (T (HSig w) [b; d]) =
+               gen_signature_identical true v w (identical_x a b) (identical_x c d)).
+Proof. exact model_one_level_cases_are_translated. Qed.
+Print Assumptions C14_model_one_level_cases_are_translated_source.
+
 (* non-vacuity: text/template.Template vs html/template.Template, L[int] vs L[string], L[int] vs its counterpart *)
 Example c14named_examples :
   let tint := T (HBasic 2) [] in let tstr := T (HBasic 17) [] in
@@ -53,5 +88,7 @@ Example c14named_examples :
   identical_x (T (HNamed 1 "p" "L") [tint]) (T (HNamed 1 "p" "L") [tstr]) = false /\
   identical_x (T (HNamed 1 "p" "L") [tint]) (T (HNamed 2 "p" "L") [tint]) = true /\
   gen_same_type_name "error" "error" false false true false false "" "" = true /\
-  gen_same_type_name "T" "T" true true false true false "p" "p" = false.
+  gen_same_type_name "T" "T" true true false true false "p" "p" = false /\
+  identical_x (T (HArray 0) [tint]) (T (HArray 4) [tint]) = false /\ identical_x (T (HArray 0) [tint]) (T (HArray 0) [tint]) = true /\
+  gen_array_identical true 0 4 true = false /\ gen_array_identical true (-1) 4 true = true.
 Proof. vm_compute. repeat split; reflexivity. Qed.
